@@ -307,6 +307,8 @@ def progs(tier):
 
 EXTRA7 = [  # appended last (positional case ids)
     # strings spanning several lines inside decorators / defaults / bases of definitions written on one line, in an indented block
+    # operator chains with the operator at the start of the line / on a line of its own
+    "x = (a\n     and  # c1\n         b\n     and c)  # c2\ny = (p\n     <  # c3\n     q\n     <= r)",
     'class K:\n    @reg("""usage:\n    prog""")\n    def run(self): pass\n\n    @reg(\'a \\\n    b\')\n    class In(B("""x\n      y""")): pass\n'
     '    def dflt(self, h="""p\n    q"""): return h\n    async def one(self): return """r\n    s"""',
 ]
